@@ -305,9 +305,12 @@ impl BDF {
             }
 
             let mut h_signed = direction * h_try;
+            let mut last_step = false;
             let x_start = x;
             let mut x_new = x + h_signed;
-            if direction * (x_new - xend) > 0.0 {
+            // (the 1.0001 stretch keeps steps that add up to xend only up to rounding, e.g. two
+            // halves of a rejected final step, from leaving a closing step of one ulp)
+            if direction * (x + 1.0001 * h_signed - xend) > 0.0 {
                 let step_to_end = (xend - x).abs();
                 if step_to_end == 0.0 {
                     status = Status::Success;
@@ -319,6 +322,8 @@ impl BDF {
                 h_try = current_h;
                 h_signed = direction * h_try;
                 x_new = x + h_signed;
+                // x + (xend - x) may miss xend by an ulp; this step is the last one anyway
+                last_step = true;
                 n_equal_steps = 0;
                 lu_is_current = false;  // Step size changed
             }
@@ -553,7 +558,7 @@ impl BDF {
                 }
             }
 
-            if direction * (x - xend) >= 0.0 {
+            if last_step || direction * (x - xend) >= 0.0 {
                 status = Status::Success;
                 break;
             }
